@@ -1,0 +1,16 @@
+//go:build verif
+
+// Contracts for the verification machinery in /verif (comment-only; compiled only with -tags verif).
+package types
+
+//@ func CalculateValidatorFee(valFee, amountToClaim) (finalClaim, fee)
+//@   props C10 C12
+//@   requires !isnil(valFee) && 0 <= dval(valFee) && dval(valFee) <= ONE
+//@   requires !isnil(amountToClaim.Amount) && 0 <= Amt(amountToClaim) && Amt(amountToClaim) < P255
+//@   requires validDenom(amountToClaim.Denom)
+//@   nopanic
+//@   ensures @fee_floor Amt(fee) == (Amt(amountToClaim) * dval(valFee)) / ONE
+//@   ensures @split Amt(finalClaim) + Amt(fee) == Amt(amountToClaim)
+//@   ensures @denoms finalClaim.Denom == amountToClaim.Denom && fee.Denom == amountToClaim.Denom
+//@   hint Amt(amountToClaim) * dval(valFee) <= Amt(amountToClaim) * ONE
+//@   hint 0 <= Amt(amountToClaim) * dval(valFee)
